@@ -37,17 +37,64 @@ enum resize_factor { X1 = 0, X2, X4, X8 };
 
 template<typename A> using string = std::basic_string<char, std::char_traits<char>, typename std::allocator_traits<A>::template rebind_alloc<char>>;
 
+#ifdef DATASKETCHES_VERIF
+// Verification hook (off by default): lets a harness own every internal random draw.
+// With DATASKETCHES_VERIF undefined this file is exactly the original.
+namespace verif {
+  struct random_source {
+    virtual uint64_t next_u64() = 0; // one draw of random_utils::rand
+    virtual uint32_t next_bit() = 0; // one draw of random_utils::random_bit, must return 0 or 1
+    virtual ~random_source() {}
+  };
+  inline random_source*& current_random_source() {
+    static thread_local random_source* source = nullptr;
+    return source;
+  }
+  struct rand_engine {
+    typedef uint64_t result_type;
+    static constexpr result_type min() { return 0; }
+    static constexpr result_type max() { return UINT64_MAX; }
+    result_type operator()() {
+      random_source* s = current_random_source();
+      return s != nullptr ? s->next_u64() : fallback_();
+    }
+    void seed(uint64_t s) { fallback_.seed(s); }
+  private:
+    std::mt19937_64 fallback_{0x5eed5eedULL};
+  };
+  struct bit_engine {
+    typedef uint32_t result_type;
+    static constexpr result_type min() { return 0; }
+    static constexpr result_type max() { return 1; }
+    result_type operator()() {
+      random_source* s = current_random_source();
+      return s != nullptr ? (s->next_bit() & 1u) : static_cast<result_type>(fallback_() & 1u);
+    }
+  private:
+    std::mt19937 fallback_{0x5eedb175U};
+  };
+}
+#endif
+
 // common random declarations
 namespace random_utils {
+#ifdef DATASKETCHES_VERIF
+  static thread_local verif::rand_engine rand;
+#else
   static std::random_device rd; // possibly unsafe in MinGW with GCC < 9.2
   static thread_local std::mt19937_64 rand(rd());
+#endif
   static thread_local std::uniform_real_distribution<> next_double(0.0, 1.0);
   static thread_local std::uniform_int_distribution<uint64_t> next_uint64(0, UINT64_MAX);
 
   // thread-safe random bit
+#ifdef DATASKETCHES_VERIF
+  static thread_local verif::bit_engine random_bit;
+#else
   static thread_local std::independent_bits_engine<std::mt19937, 1, uint32_t>
     random_bit(static_cast<uint32_t>(std::chrono::system_clock::now().time_since_epoch().count()
       + std::hash<std::thread::id>{}(std::this_thread::get_id())));
+#endif
 
   inline void override_seed(uint64_t s) {
     rand.seed(s);
